@@ -119,7 +119,7 @@ pub fn run_proc(case: &ProcCase) -> ProcOutcome {
             let p = popen.as_mut().unwrap();
             // "will the child ever be reapable": needed to construct only
             // histories in which a blocking wait can return
-            let mortal = sim.exit_at.is_some() || sim.reaped;
+            let mortal = (sim.exit_at.is_some() && !sim.stopped) || sim.reaped;
             let res = match &op {
                 HOp::Poll => OpResult::Status(Ok(p.poll())),
                 HOp::Wait => {
@@ -184,6 +184,8 @@ pub fn run_proc(case: &ProcCase) -> ProcOutcome {
         // final drop (if still alive in the model the harness makes it mortal first)
         let sim = unsafe { &mut *simp };
         if let Some(p) = popen.take() {
+            sim.resume();
+            sim.pending_sig = None;
             if sim.exit_at.is_none() && !sim.reaped {
                 sim.exit_at = Some(sim.now);
             }
@@ -272,7 +274,8 @@ pub fn judge(focus: Focus, case: &ProcCase, o: &ProcOutcome, rep: &mut CaseRepor
         for e in evs {
             if let Ev::Waitpid { pid, ret, status, err, .. } = e {
                 if *pid == o.pid {
-                    if *ret == o.pid {
+                    if *ret == o.pid && *status & 0xff != 0x7f && *status != 0xffff {
+                        // (a stop or continue report is not a termination)
                         learned = Some(decode(*status));
                     } else if *ret < 0 && *err == libc::ECHILD {
                         learned = Some(ExitStatus::Undetermined);
